@@ -2,7 +2,7 @@
    from the live ELFStructs) against the standard: which tag set applies to which
    machine / OS ABI, and that every selectable dict gives the interpreted tags,
    segment types and section types their gABI numbers (and only those). *)
-From PV Require Import Model.C09Dynamic Base.Enum.
+From PV Require Import Model.C09Dynamic Base.Enum Gen.C09Hash.
 Open Scope string_scope.
 Open Scope list_scope.
 Open Scope Z_scope.
@@ -201,3 +201,30 @@ Proof.
   destruct (spec_dtab_kind m o); cbn [is_solaris_kind] in Hs; rewrite Hs; cbn [andb];
     destruct (v =? DT_NEEDED), (v =? DT_SONAME), (v =? DT_RPATH), (v =? DT_RUNPATH); reflexivity.
 Qed.
+
+(* ---------- SysV hash entry width: the code's choice per machine and class is the psABIs' ---------- *)
+Definition hash_wide_of (n : string) (b : bool) : bool :=
+  existsb (fun p => (fst p =? n)%string && Bool.eqb (snd p) b) gen_hash_wide.
+
+Lemma hash_wide_spec f : hash_wide f = spec_hash_wide (e_machine (f_eh f)) (f_is64 f).
+Proof.
+  unfold hash_wide. fold (hash_wide_of (machine_key (e_machine (f_eh f))) (f_is64 f)).
+  generalize (e_machine (f_eh f)) as m. generalize (f_is64 f) as b. intros b m.
+  assert (Hall : forall b, forallb (fun kn => Bool.eqb (hash_wide_of (snd kn) b) (spec_hash_wide (fst kn) b))
+                                   E005_e_machine = true) by (intros [|]; vm_compute; reflexivity).
+  destruct (machine_key_cases m) as [[n [-> Hin]]|Hr].
+  - specialize (Hall b). rewrite forallb_forall in Hall. specialize (Hall _ Hin). cbn [fst snd] in Hall.
+    apply Bool.eqb_prop in Hall. exact Hall.
+  - rewrite Hr. replace (hash_wide_of "<raw>" b) with false by (destruct b; vm_compute; reflexivity).
+    unfold machine_key in Hr. destruct (dict_get E005_e_machine m) as [n|] eqn:E.
+    + exfalso. apply dict_get_in in E. subst n.
+      assert (Hno : forallb (fun kn => negb (snd kn =? "<raw>")%string) E005_e_machine = true) by (vm_compute; reflexivity).
+      rewrite forallb_forall in Hno. specialize (Hno _ E). discriminate.
+    + unfold spec_hash_wide.
+      destruct (Z.eqb_spec m EM_ALPHA) as [->|]; [vm_compute in E; discriminate|].
+      destruct (Z.eqb_spec m EM_S390) as [->|]; [vm_compute in E; discriminate|].
+      destruct b; reflexivity.
+Qed.
+
+Lemma gen_Elf_Hash_wide_spec le : gen_Elf_Hash_wide le = spec_Elf_Hash_w le true.
+Proof. destruct le; reflexivity. Qed.
